@@ -213,14 +213,14 @@ func (*Scanner).char [C13, C19, C03]
 func (*Scanner).aliasParameter [C13, C03]
   safe
   requires J(s) && P(s)
-  modifies scanner.Scanner.cur, scanner.Scanner.column, scanner.Scanner.shouldIndent, scanner.Scanner.shouldCapitalize, parser.parser.errored
+  modifies scanner.Scanner.cur, scanner.Scanner.column, scanner.Scanner.line, scanner.Scanner.indent, scanner.Scanner.shouldIndent, scanner.Scanner.shouldCapitalize, parser.parser.errored
   ensures J(s) && s.cur >= old(s.cur) && s.start == old(s.start)
   ensures result.Type == token.ALIAS_PARAMETER
   ensures result.Literal == stringOf(subslice(s.src, s.start, s.cur))
   ensures result.Range.Start.Line == s.startLine && result.Range.Start.Column == s.startColumn
   ensures result.Range.End.Line == s.line && result.Range.End.Column == s.column
   ensures P(s)
-  loop 0 invariant J(s) && s.cur >= old(s.cur) && s.start == old(s.start) && s.startLine == old(s.startLine) && s.startColumn == old(s.startColumn)
+  loop 0 invariant J(s) && P(s) && s.cur >= old(s.cur) && s.start == old(s.start) && s.startLine == old(s.startLine) && s.startColumn == old(s.startColumn)
   loop 0 decreases len(s.src) - s.cur
 
 spec firstRune(s *Scanner) int := utf8.runeA(arr(s.src), off(s.src) + s.start)
